@@ -111,3 +111,23 @@ pub open spec fn locked_args_is_some(f: Frame) -> bool {
         _ => false,
     }
 }
+
+// ---- thread.rs reset_stack helpers
+#[verifier::external_body]
+pub struct Stacktrace { _p: () }
+impl Stack {
+    // diagnostic only
+    #[verifier::external_body]
+    pub fn stacktrace(&self, frame_level: usize) -> Stacktrace { unimplemented!() }
+    // real body: `&self.frames`
+    #[verifier::external_body]
+    pub fn get_frames(&self) -> (r: &Vec<Frame>) ensures r@ == self.frames@ { unimplemented!() }
+}
+impl StackFrame {
+    // real body: `&self.stack`
+    #[verifier::external_body]
+    pub fn stack(&self) -> (r: &Stack) ensures *r == self.stack { unimplemented!() }
+}
+// R-err: `format!("Attempted to exit scope above current").into()`
+#[verifier::external_body]
+pub fn err_exit_scope_above_current() -> Error { unimplemented!() }
